@@ -542,7 +542,9 @@ func (c *fnCtx) unbox(st *State, x string, t types.Type) SymVal {
 	switch kindOf(t) {
 	case KRef:
 		// assumption A8: interface values never hold typed nil pointers
-		c.assume(st, sImp(app("=", app("itag", x), fmt.Sprint(c.g.tagOf(t))), sNot(sEq(app("iref", x), "nil"))))
+		if !strings.Contains(x, "!q") {
+			c.assume(st, sImp(app("=", app("itag", x), fmt.Sprint(c.g.tagOf(t))), sNot(sEq(app("iref", x), "nil"))))
+		}
 		return mkRef(app("iref", x), t)
 	case KBool:
 		return mkBool(app("=", app("ipay", x), "1"))
